@@ -6,6 +6,7 @@ REGISTRY = {
     "C04": rbc.run,
     "C13": codec.run,
     "C15": box.run,
+    "C14": box.run,
     "C06": orch.run,
     "C11": orch.run,
     "C12": orch.run,
@@ -64,10 +65,19 @@ META["C12"] = dict(engine="orch", note=ORCH_NOTE,
          "inductive ownership invariant over arbitrary histories of KeyGen/Sign/cancel/late-continuation/inject; upstream residue defects "
          "repaired; tied to the code by executing such histories on a real Scheme and comparing API results, table keys and reached instances.")
 
+META["C14"] = dict(engine="box", note=BOX_NOTE + " Concurrent half: lock-granular small-step model (threads = program counters, buffers = heap "
+    "objects) tied to the real Box by a cooperative scheduler at yield points placed at the lock boundaries (build tag verif); preemption "
+    "inside critical sections and the garbage collector are outside this model.",
+    text="Proved: sequential exactly-once/in-order (all operation lists) and at-most-once for ALL lock-granular interleavings of any "
+         "number of receive/send calls (NoDup invariant over thread-local, buffered and handed-over messages). The full statement is "
+         "refuted on the faithful model with three witness schedules (late / lost / order) that the check replays on the real Box: "
+         "genuine upstream defects needing a restructuring of the locking, recorded as known findings C14-a/b/c; any other failure "
+         "(e.g. a double hand-over) is a violation.")
+
 ENGINES = {
     "orch": dict(path="coq/theories/Orch + harness/core/orch.go + checks/orch.py", props=["C06", "C11", "C12"],
                  kind="Coq model of session life cycle and id translation; Go harness drives a real Scheme with scripted sync/backend"),
-    "box": dict(path="coq/theories/Box + harness/core/box.go + checks/box.py", props=["C15"],
+    "box": dict(path="coq/theories/Box + harness/core/box.go + checks/box.py", props=["C14", "C15"],
                 kind="Coq model of msg.Box (sequential + lock-granular concurrent); Go harness drives the real Box"),
     "codec": dict(path="coq/theories/Wire + harness/core/codec.go + checks/codec.py", props=["C13"],
                   kind="Coq model of the wire codecs; Go harness calls the real encoders/decoders through verif hooks"),
